@@ -155,8 +155,10 @@ type OpSpec struct {
 	NextUpdate   *Key
 	NextRecovery *Key
 	Patches      []patch.Patch
-	AnchorOrigin interface{}
-	From, Until  int64
+	// OpaqueDocument, when set, is handed to the client library instead of Patches (create / recover).
+	OpaqueDocument string
+	AnchorOrigin   interface{}
+	From, Until    int64
 }
 
 // Build produces the request bytes with the real client library.
@@ -165,6 +167,7 @@ func Build(s *OpSpec) ([]byte, error) {
 	case operation.TypeCreate:
 		return client.NewCreateRequest(&client.CreateRequestInfo{
 			Patches:            s.Patches,
+			OpaqueDocument:     s.OpaqueDocument,
 			RecoveryCommitment: s.NextRecovery.Commitment(s.Hash),
 			UpdateCommitment:   s.NextUpdate.Commitment(s.Hash),
 			AnchorOrigin:       s.AnchorOrigin,
@@ -187,6 +190,7 @@ func Build(s *OpSpec) ([]byte, error) {
 			DidSuffix:          s.Suffix,
 			RecoveryKey:        s.SignKey.JWK,
 			Patches:            s.Patches,
+			OpaqueDocument:     s.OpaqueDocument,
 			RecoveryCommitment: s.NextRecovery.Commitment(s.Hash),
 			UpdateCommitment:   s.NextUpdate.Commitment(s.Hash),
 			AnchorOrigin:       s.AnchorOrigin,
@@ -333,4 +337,66 @@ func ToPatches(ds []PatchDesc) ([]patch.Patch, error) {
 	}
 
 	return out, nil
+}
+
+// OpaqueDoc renders an opaque document for the client library and returns the patch descriptions the
+// library is expected to derive from it (members in sorted order: alsoKnownAs, publicKey, service; other
+// members become one JSON patch at the end).
+func OpaqueDoc(keyIDs, svcIDs, uris []string, note, mark string) (string, []PatchDesc) {
+	var parts []string
+
+	var descs []PatchDesc
+
+	if len(uris) > 0 {
+		b, _ := json.Marshal(uris)
+		parts = append(parts, `"alsoKnownAs":`+string(b))
+		descs = append(descs, PatchDesc{Kind: AddAKA, IDs: uris, Mark: mark})
+	}
+
+	if len(keyIDs) > 0 {
+		s := ""
+
+		for i, id := range keyIDs {
+			if i > 0 {
+				s += ","
+			}
+
+			s += keyJSON(id, mark)
+		}
+
+		parts = append(parts, `"publicKey":[`+s+`]`)
+		descs = append(descs, PatchDesc{Kind: AddKey, IDs: keyIDs, Mark: mark})
+	}
+
+	if len(svcIDs) > 0 {
+		s := ""
+
+		for i, id := range svcIDs {
+			if i > 0 {
+				s += ","
+			}
+
+			s += svcJSON(id, mark)
+		}
+
+		parts = append(parts, `"service":[`+s+`]`)
+		descs = append(descs, PatchDesc{Kind: AddSvc, IDs: svcIDs, Mark: mark})
+	}
+
+	if note != "" {
+		parts = append(parts, fmt.Sprintf(`"note":%q`, note))
+		descs = append(descs, PatchDesc{Kind: AddNote, Mark: note})
+	}
+
+	doc := "{"
+
+	for i, p := range parts {
+		if i > 0 {
+			doc += ","
+		}
+
+		doc += p
+	}
+
+	return doc + "}", descs
 }
